@@ -126,7 +126,9 @@ func (x *Exec) verifyFunc(fn *ssa.Function, con *Contract, mode string) (rep Fun
 			default:
 				panic(r)
 			}
-			// obligations generated before the failure are kept but the function is not counted as proved
+			// the function is outside the subset (or its contract is broken): it is reported as
+			// undecided; obligations generated before the failure are dropped (neither proved nor violated)
+			x.obls = x.obls[:before]
 			x.gaps = append(x.gaps, Gap{x.curKey, rep.Undecided})
 		}
 	}()
@@ -170,6 +172,26 @@ func (x *Exec) verifyFunc(fn *ssa.Function, con *Contract, mode string) (rep Fun
 	}
 	x.assumeAxioms(st, x.pkgTypes())
 	env := x.baseEnv(st)
+	if mode == "sweep" && (con == nil || len(con.Requires) == 0) {
+		// surface type invariants: pointer arguments are non-nil; declared invariants of their types hold
+		for _, p := range fn.Params {
+			pt, ok := p.Type().Underlying().(*types.Pointer)
+			if !ok {
+				continue
+			}
+			v := f.env[p]
+			st.assume(not(eq(v.T, "0")))
+			if nt, ok := pt.Elem().(*types.Named); ok && nt.Obj().Pkg() != nil {
+				for _, ti := range x.db.TypeInvs {
+					if ti.Type == nt.Obj().Name() && ti.Pkg == nt.Obj().Pkg().Path() {
+						te := &SpecEnv{x: x, st: st, oldHeaps: map[string]string{}, vars: map[string]Val{"self": v}, pkg: nt.Obj().Pkg(), what: "typeinv " + ti.Type}
+						st.assume(te.boolTerm(ti.E))
+						x.trusted["type invariant of "+ti.Type+" assumed at sweep entry: "+ti.Src]++
+					}
+				}
+			}
+		}
+	}
 	if con != nil {
 		for _, l := range con.Lets {
 			env.what = "let " + l.Name
